@@ -221,6 +221,36 @@ def install_seams(seed):
         if mod is not None and hasattr(mod, "uuid4"):
             mod.uuid4 = fake_uuid4
     random.seed(seed)
+    global NET
+    NET = refuse_network()
+
+
+NET = None
+
+
+class _Refused:
+    """default SimNet: the network is unreachable (deterministically) unless a check installs its own handler"""
+
+    def __init__(self):
+        self.calls = 0
+
+    def __call__(self, req, *a, **kw):
+        import urllib.error
+
+        self.calls += 1
+        raise urllib.error.URLError("simulated network: connection refused")
+
+
+def refuse_network(handler=None):
+    """route every urlopen seam of rdflib to `handler` (default: refuse).  Nothing real is ever opened."""
+    import sys as _sys
+
+    h = handler or _Refused()
+    for modname, attr in (("rdflib.parser", "_urlopen"), ("rdflib._networking", "_urlopen"), ("rdflib.plugins.stores.sparqlconnector", "urlopen"), ("rdflib.plugins.sparql.evaluate", "urlopen"), ("rdflib.plugins.shared.jsonld.util", "_urlopen")):
+        mod = _sys.modules.get(modname)
+        if mod is not None and hasattr(mod, attr):
+            setattr(mod, attr, h)
+    return h
 
 
 def execute_here(prop, trace, known=None, keep_log=False):
